@@ -312,3 +312,98 @@ def add_handlers(P, tags, only=None):
             if not any(set(re.findall(r"C\d\d", l.split(":")[0])) & set(tags) for l in labels if ":" in l):
                 continue
         P.verify(E.NOTIFY + k, c, tags=tags)
+    if only is None or "handle_terminal_state" in only:
+        c = handle_terminal_state_contract()
+        labels = [l for l, _, _ in c.ensures]
+        if tags is None or any(set(re.findall(r"C\d\d", l.split(":")[0])) & set(tags) for l in labels if ":" in l):
+            P.verify(c.key, c, tags=tags, timeout=30)
+
+
+# --------------------------------------------------------------------------------------------------------------------
+# notify.<locals>.handle_terminal_state on its REAL body (C02 / C03 / C05 / C06 / C09 / C15): where a terminal state's
+# event goes.  Its callees are seen through a scope of their own: end_execution / check_pending_results /
+# update_execution_history / acknowledge as ghost-logged externals, the closures handle_error and
+# asl_state_collect_results as contracted units that may do anything to the effect ghosts (their own contracts are
+# elsewhere / assumed), so every clause below is about the DIRECT calls of this function.
+# --------------------------------------------------------------------------------------------------------------------
+def handle_terminal_state_contract():
+    from pyvc.contracts import Registry
+    from contracts import engine as E
+    sc = Registry()
+    for g, t in (("tn_end", "int"), ("t_end_event", "val"), ("t_end_type", "val"), ("tn_cpr", "int"), ("t_cpr_arn", "val"), ("tn_hist", "int"),
+                 ("t_hist_type", "val"), ("t_hist_arn", "val"), ("tn_ack", "int"), ("t_ack_id", "val"), ("t_ack_nend", "int"),
+                 ("tn_herr", "int"), ("tn_collect", "int"), ("t_collect_type", "val")):
+        sc.ghost(g, t)
+    sc.external("self.logger.*", ["msg"], modifies=None, result_type="none")
+    sc.external("self.end_execution", ["state_machine", "state_type", "event"], modifies="ALL", preserves="PROTECTED", result_type="none",
+                ghost={"tn_end": "tn_end + 1", "t_end_event": "event", "t_end_type": "state_type"})
+    sc.external("self.check_pending_results", ["execution_arn"], modifies="ALL", preserves="PROTECTED", result_type="none",
+                ghost={"tn_cpr": "tn_cpr + 1", "t_cpr_arn": "execution_arn"})
+    sc.external("self.update_execution_history", ["state_machine", "execution_arn", "update_type", "details"],
+                # writes the execution stores and this execution's history list, nothing else (its own contract: C09)
+                modifies=["self.executions", "self.execution_history",
+                          ("self.execution_history[execution_arn]", "execution_arn in self.execution_history")],
+                result_type="none",
+                ghost={"tn_hist": "tn_hist + 1", "t_hist_type": "update_type", "t_hist_arn": "execution_arn"})
+    sc.external("self.event_dispatcher.acknowledge", ["id"], modifies=None, result_type="none",
+                ghost={"tn_ack": "tn_ack + 1", "t_ack_id": "id", "t_ack_nend": "tn_end + tn_cpr"})
+    sc.external("json.dumps", ["obj"], modifies=None, result_type="str")
+    # (ghost_modifies=[]: the t* ghosts log the DIRECT calls of handle_terminal_state only)
+    sc.contract(E.NOTIFY + "handle_error", env=E.NOTIFY_ENV, ghost={"tn_herr": "tn_herr + 1"}, modifies="ALL", preserves="PROTECTED",
+                raises={}, ghost_modifies=[])
+    sc.contract(E.NOTIFY + "asl_state_collect_results", env=E.NOTIFY_ENV, ghost={"tn_collect": "tn_collect + 1", "t_collect_type": "state_type"},
+                modifies="ALL", preserves="PROTECTED", raises={}, ghost_modifies=[])
+    ARN = "context['Execution']['Id']"
+    BR = "('Branch' in context['State'])"
+    ERRV = "(isdict(event['data']) and istrue(event['data'].get('Error')))"
+    TERM = "(isdict(event['data']) and event['data'].get('Error') == 'Task.Terminated')"
+    c = Contract(
+        E.NOTIFY + "handle_terminal_state", env=E.NOTIFY_ENV,
+        types={"state_type": "str", "event": "dict", "id": "any"},
+        requires=E.WF_EVENT + E.WF_SELF + E.SEP_SELF_EVENT + [
+            "same(context, event['context'])", "isjson(event['data']) or isnone(event['data'])", "isobj(self.event_dispatcher)",
+            "implies(%s, islist(context['State']['Branch']) and seqlen(context['State']['Branch']) >= 1 and "
+            "isdict(context['State']['Branch'][-1]))" % BR,
+            "not same(event['data'], context)", "not same(event['data'], context['State'])", "not same(event['data'], event)",
+            "not same(event['data'], self.branch_metadata)", "not same(event['data'], context['Execution'])",
+            E.hist_is_list("event['context']['Execution']['Id']"),
+            "implies(%s, not same(context['State']['Branch'][-1], self.executions) and "
+            "not same(context['State']['Branch'][-1], self.execution_history))" % BR,
+            # the event's branch stack is not the stored history list of the execution
+            "implies(%s and %s in self.execution_history, not same(context['State']['Branch'], self.execution_history[%s]))" % (BR, ARN, ARN)],
+        ensures=[
+            # C02: a terminal state outside every Parallel / Map ends the execution, exactly once from here ...
+            ("C01,C02:top-level-terminal-ends-the-execution", "implies(not old(%s) and not old(%s), tn_end == old(tn_end) + 1 and "
+                                                              "tn_cpr == old(tn_cpr) and same(t_end_event, event) and t_end_type == state_type)" % (BR, TERM)),
+            # ... also when what terminates it is a cancelled task (a synchronous child whose parent gave up: C15) and the
+            # execution holds no join state
+            ("C02,C15:terminated-task-without-join-state-ends-the-execution",
+             "implies(not old(%s) and old(%s) and not old(%s in self.branch_metadata), tn_end == old(tn_end) + 1 and tn_cpr == old(tn_cpr))" % (BR, TERM, ARN)),
+            # C06: a task cancelled by a failure elsewhere only tidies the join state (the execution was already ended)
+            ("C02,C06:terminated-task-with-join-state-only-tidies",
+             "implies(not old(%s) and old(%s) and old(%s in self.branch_metadata), tn_end == old(tn_end) and tn_cpr == old(tn_cpr) + 1 and "
+             "same(t_cpr_arn, old(%s)))" % (BR, TERM, ARN, ARN)),
+            # C03: the terminal event is acknowledged once, after the execution's end (or tidy-up) was carried out
+            ("C03:top-level-event-acked-after-its-consequences", "implies(not old(%s) and not isnone(id), tn_ack == old(tn_ack) + 1 and same(t_ack_id, id) and "
+                                                                 "t_ack_nend == tn_end + tn_cpr and t_ack_nend == old(tn_end) + old(tn_cpr) + 1)" % BR),
+            ("C03:no-id-no-ack", "implies(isnone(id) and not old(%s), tn_ack == old(tn_ack))" % BR),
+            # C05 / C06: inside a branch the terminal event is handed to the join -- it neither ends the execution nor is it
+            # acknowledged here (the join holds it)
+            ("C05,C06:branch-terminal-goes-to-the-join", "implies(old(%s) and old('Index' in context['State']['Branch'][-1]), "
+                                                         "tn_collect == old(tn_collect) + 1 and t_collect_type == state_type and "
+                                                         "tn_herr == old(tn_herr))" % BR),
+            ("C05,C06:branch-terminal-does-not-end-the-execution-itself", "implies(old(%s), tn_collect > old(tn_collect) or tn_herr > old(tn_herr) or "
+                                                                          "tn_end == old(tn_end) + 1)" % BR),
+            # C09: a branch's last state logs StateExited with its output unless it ends in an error
+            ("C09:branch-exit-logged-unless-error", "implies(old(%s) and not old(%s) and tn_collect == old(tn_collect) + 1, "
+                                                    "t_hist_type == state_type + 'StateExited' and same(t_hist_arn, old(%s)))" % (BR, ERRV, ARN)),
+        ],
+        raises={"AttributeError": None}, xensures={},
+        covers_exit=[("top-level-end", "tn_end == old(tn_end) + 1 and tn_ack == old(tn_ack) + 1"),
+                     ("terminated-child", "tn_end == old(tn_end) + 1 and old(%s)" % TERM),
+                     ("to-join", "tn_collect == old(tn_collect) + 1")],
+        protected=["self", "event", "context", "context['State']", "context['Execution']", "self.branch_metadata", "self.event_dispatcher",
+                   "state_machine", "state", "context['State']['Branch']", "context['State']['Branch'][-1]"],
+        modifies="ALL")
+    c.scope = sc
+    return c
